@@ -220,9 +220,17 @@ def field_cases(k, s, j, step):
     conn.commit()
     rec_mod.find_recession_offsets(conn)
     rise_mod.find_rise_offsets(conn)
+    try:
+        return cases_from_conn(conn, "field%d s=%g j=%g" % (k, s, j))
+    finally:
+        conn.close()
+
+
+def cases_from_conn(conn, tag, have=("recession", "rise")):
+    """provenance / stationarity cases (fixed point) from the tables of any dataset with a grid and curves"""
     t = _tables(conn)
     (dt,) = conn.execute("SELECT time_step_s FROM time_grid").fetchone()
-    conn.close()
+    step = t["step"]
     e0 = t["wl"][0][0]
     idx = lambda e: (e - e0) // dt
     wl = {e: z for e, z in t["wl"]}
@@ -233,7 +241,7 @@ def field_cases(k, s, j, step):
     grid = {"lo": t["grid"][0], "hi": t["grid"][1], "count": t["grid"][2], "minp": fxp(min(zs)), "maxp": fxp(max(zs)),
             "slack": 0 if step in (1.0, 0.5, 2.0, 0.25) else 1}
     import bisect
-    rng = random.Random(seed() + k)
+    rng = random.Random(seed())
     owners, by_start = [], {}
     for a, z in t["inter"]:
         i0, i1 = bisect.bisect_left(eps, a), bisect.bisect_right(eps, z)
@@ -249,18 +257,18 @@ def field_cases(k, s, j, step):
         if crossings == 1:
             rows.append({"start": idx(e), "n": n, "v": int(round(v / dt * 100))})
     rng.shuffle(rows)
-    prov = [{"id": "field%d s=%g j=%g step=%g recession" % (k, s, j, step), "kind": "recession", "D": D, "K": 100,
+    prov = [{"id": "%s step=%g recession" % (tag, step), "kind": "recession", "D": D, "K": 100,
              "tol": 3, "owners": owners, "members": [idx(e) for e in t["rec_members"]], "rows": rows[:400], "grid": grid}]
     # rises: relational part only (owner exists, level in grid); values judged loosely
     owners = [{"start": idx(a), "samples": [[0, int(round(wl[a] / step * 10))],
                                             [int(round(depth * 100)), int(round(wl[z] / step * 10))]]}
               for a, z, depth in t["rises"]]
-    prov.append({"id": "field%d s=%g j=%g step=%g rise" % (k, s, j, step), "kind": "rise", "D": 10, "K": 10,
+    prov.append({"id": "%s step=%g rise" % (tag, step), "kind": "rise", "D": 10, "K": 10,
                  "tol": 400, "owners": owners, "members": [idx(e) for e in t["rise_members"]],
                  "rows": [{"start": idx(e), "n": n, "v": int(round(v * 100 * 10))} for e, n, v in t["rise_rows"]][:300],
                  "grid": dict(grid, minp=int(round(min(zs) / step * 10)), maxp=int(round(max(zs) / step * 10)))})
-    stat = [stat_case("field%d s=%g j=%g step=%g recession" % (k, s, j, step), t["rec_rows"], t["rec_off"], 0.1, idx),
-            stat_case("field%d s=%g j=%g step=%g rise" % (k, s, j, step), t["rise_rows"], t["rise_off"], 1000.0, idx)]
+    stat = [stat_case("%s step=%g recession" % (tag, step), t["rec_rows"], t["rec_off"], 0.1, idx),
+            stat_case("%s step=%g rise" % (tag, step), t["rise_rows"], t["rise_off"], 1000.0, idx)]
     return prov, stat
 
 
